@@ -17,6 +17,9 @@ import (
 
 const rule = "a case is non-trivial when its sources hold at least one byte in total; distinct = distinct (reader, parameters, sources with scripts, consumption mode/ops) tuples"
 
+// workDir is where temp files for *os.File sources / writers go ("" = the system temp dir).
+var workDir string
+
 type runner struct {
 	res     *lib.Result
 	drv     *lib.Drv
@@ -46,6 +49,15 @@ func classify(c *Case, o *Obs, res *lib.Result) {
 		}
 		if s.Boom {
 			res.Hit("style:error-at-offset")
+		}
+		if s.BodyClosed {
+			res.Hit("style:ErrBodyReadAfterClose")
+		}
+		if s.WT {
+			res.Hit("source:scripted-with-WriteTo")
+		}
+		if s.Std != "" {
+			res.Hit("source:std-" + s.Std)
 		}
 		for _, x := range s.Script {
 			if x == 0 {
@@ -89,6 +101,12 @@ func classify(c *Case, o *Obs, res *lib.Result) {
 	}
 	if c.Mode != "ops" {
 		res.Hit("outcome:" + o.Term)
+	}
+	if c.RF > 0 {
+		res.Hit("writer:scripted-with-ReadFrom")
+	}
+	if w := c.stdW(); w != "" {
+		res.Hit("writer:std-" + w)
 	}
 }
 
@@ -140,7 +158,7 @@ func (r *runner) flush() {
 		for _, v := range monitor(c, o) {
 			r.res.Violate(v.id, v.what, c)
 		}
-		if r.drv != nil && !r.dead && c.Mode != "copybuf" && !o.Timeout && o.Panic == "" {
+		if r.drv != nil && !r.dead && !o.Timeout && o.Panic == "" {
 			lines = append(lines, line)
 			idx = append(idx, i)
 		}
@@ -167,6 +185,7 @@ func (r *runner) flush() {
 
 func main() {
 	f := lib.ParseFlags()
+	workDir = f.Work
 	res := lib.NewResult(rule)
 	drv, err := lib.StartDrv(f.Drv, "C16")
 	if err != nil {
@@ -234,6 +253,8 @@ func main() {
 	genMulti(thorough, rnd.Fork(), r.emit)
 	genTee(thorough, r.emit)
 	genWriteToFailingWriter(r.emit)
+	genMultiFastPaths(thorough, rnd.Fork(), r.emit)
+	genStd(thorough, rnd.Fork(), r.emit)
 	nLarge, nOps := 400, 4000
 	if thorough {
 		nLarge, nOps = 3000, 40000
@@ -244,6 +265,13 @@ func main() {
 	genRandomLarge(nLarge, rnd.Fork(), r.emit)
 	genOps(nOps, rnd.Fork(), r.emit)
 	r.flush()
+	// TeeReadCloser from several goroutines: in-process histories, then the same under -race
+	nConc, nRace := 1500, 400
+	if thorough {
+		nConc, nRace = 15000, 4000
+	}
+	r.runTeeConc(f.Seed, nConc)
+	r.runRace(f, nRace)
 	res.Exhaustive = true
 	res.Note("exhaustive part: limit N in 0..16 x source length 0..N+3 x (all compositions up to length " +
 		map[bool]string{false: "5", true: "9"}[thorough] + ", boundary chunkings above) x 8 reader styles x consumer buffers x {Read loop, io.ReadAll, io.Copy}; " +
